@@ -410,40 +410,73 @@ func checkC16(c *Ctx) {
 	}
 	// exported constructors delegate
 	elIface := m.P.Leader.Type("Election").Type()
+	returnsElection := func(g *ssa.Function) bool {
+		if g.Signature.Results().Len() != 2 || !isErrorType(g.Signature.Results().At(1).Type()) {
+			return false
+		}
+		r0 := g.Signature.Results().At(0).Type()
+		return types.Identical(r0, elIface) || types.Identical(r0, m.implPtr())
+	}
+	isProviderInvoke := func(x ssa.Instruction) bool {
+		c2, ok := x.(*ssa.Call)
+		if !ok || !c2.Call.IsInvoke() {
+			return false
+		}
+		n := namedOf(c2.Call.Value.Type())
+		return n != nil && n.Obj().Pkg() == m.P.Leader.Pkg && (n.Obj().Name() == "JetStreamProvider" || n.Obj().Name() == "JetStreamContext" || n.Obj().Name() == "NATSConnectionProvider" || n == m.KVIface)
+	}
+	// delegation: f hands the construction on to the validating constructor, directly or through
+	// functions that return the election themselves; everything else it calls on the way must not
+	// contact a provider or start a goroutine
+	var deleg func(f *ssa.Function, depth int) (delegates, contacts bool, via string)
+	deleg = func(f *ssa.Function, depth int) (delegates, contacts bool, via string) {
+		if depth > 4 {
+			return false, false, ""
+		}
+		eachInstr(f, func(in ssa.Instruction) {
+			if _, isGo := in.(*ssa.Go); isGo {
+				contacts, via = true, " (go statement in "+shortFn(f)+")"
+			}
+			call, ok := in.(*ssa.Call)
+			if !ok {
+				return
+			}
+			if call.Call.IsInvoke() {
+				contacts, via = true, " (interface call in "+shortFn(f)+")"
+				return
+			}
+			g := call.Call.StaticCallee()
+			if g == nil || !m.isLib(g) || g == vf {
+				return
+			}
+			if g == ctor {
+				delegates = true
+				return
+			}
+			if returnsElection(g) {
+				d, c2, v2 := deleg(g, depth+1)
+				delegates = delegates || d
+				if c2 {
+					contacts, via = true, v2
+				}
+				return
+			}
+			for _, h := range sortedFns(m.staticReach(g, true)) {
+				eachInstr(h, func(x ssa.Instruction) {
+					if isProviderInvoke(x) {
+						contacts, via = true, " (through "+shortFn(h)+")"
+					}
+				})
+			}
+		})
+		return
+	}
 	for _, mem := range m.P.Leader.Members {
 		f, ok := mem.(*ssa.Function)
 		if !ok || f.Object() == nil || !f.Object().Exported() || f.Signature.Results().Len() != 2 || !types.Identical(f.Signature.Results().At(0).Type(), elIface) {
 			continue
 		}
-		delegates := false
-		contacts := false
-		via := ""
-		eachInstr(f, func(in ssa.Instruction) {
-			if call, ok := in.(*ssa.Call); ok {
-				if g := call.Call.StaticCallee(); g != nil && (g == ctor || (m.isLib(g) && g.Object() != nil && g.Object().Exported() && g.Signature.Results().Len() == 2 && types.Identical(g.Signature.Results().At(0).Type(), elIface))) {
-					delegates = true
-				}
-				if call.Call.IsInvoke() {
-					contacts = true
-				}
-				// ... nor through a helper it calls before delegating (a "wait for the bucket" step)
-				if g := call.Call.StaticCallee(); g != nil && m.isLib(g) && g != ctor && g != vf && !(g.Object() != nil && g.Object().Exported() && g.Signature.Results().Len() == 2 && types.Identical(g.Signature.Results().At(0).Type(), elIface)) {
-					for _, h := range sortedFns(m.staticReach(g, true)) {
-						eachInstr(h, func(x ssa.Instruction) {
-							if c2, ok := x.(*ssa.Call); ok && c2.Call.IsInvoke() {
-								if n := namedOf(c2.Call.Value.Type()); n != nil && n.Obj().Pkg() == m.P.Leader.Pkg && (n.Obj().Name() == "JetStreamProvider" || n.Obj().Name() == "JetStreamContext" || n.Obj().Name() == "NATSConnectionProvider" || n == m.KVIface) {
-									contacts = true
-									via = " (through " + shortFn(h) + ")"
-								}
-							}
-						})
-					}
-				}
-			}
-			if _, isGo := in.(*ssa.Go); isGo {
-				contacts = true
-			}
-		})
+		delegates, contacts, via := deleg(f, 0)
 		c.check(delegates && !contacts, "R2", "exported constructor "+shortFn(f)+" delegates", firstInstr(f), "delegates to the validating constructor: %v; contacts a provider itself: %v%s", delegates, contacts, via)
 	}
 }
